@@ -171,6 +171,7 @@ func Encode(transport string, args []string) (b []byte, ok bool) {
 
 // Node is one in-process server (DevMode off: the production configuration).
 type Node struct {
+	hookGen int64
 	S        *server.Server
 	Port     int
 	Addr     string
@@ -211,6 +212,7 @@ func startNode(base string) (*Node, error) {
 			n.Shrinks.Add(1)
 		}
 	})
+	n.hookGen = t38.HookGeneration(n.Port)
 	go func() {
 		n.done <- server.Serve(server.Options{Host: "127.0.0.1", Port: n.Port, Dir: dir, UseHTTP: true,
 			DevMode: false, AppendOnly: true, Shutdown: n.shutdown, ProtectedMode: "no"})
@@ -251,7 +253,7 @@ func (n *Node) Stop() {
 	case <-n.done:
 	case <-time.After(30 * time.Second):
 	}
-	t38.SetHook(n.Port, nil)
+	t38.ClearHookIf(n.Port, n.hookGen) // (the port may already belong to a later node)
 	os.RemoveAll(n.Dir)
 }
 
